@@ -333,7 +333,7 @@ def _read_deprecated_section(
 
     item = items[0]
     version = item[0]
-    text = dedent("\n".join(item[1:]))
+    text = dedent("\n".join(item[1:])).rstrip()
     return DocstringSectionDeprecated(version=version, text=text), new_offset
 
 
@@ -361,7 +361,7 @@ def _read_returns_section(
         groups = match.groupdict()
         name = groups["nt_name"] or groups["name"]
         annotation = groups["nt_type"] or groups["type"]
-        text = dedent("\n".join(item[1:]))
+        text = dedent("\n".join(item[1:])).rstrip()
         if annotation is None:
             # try to retrieve the annotation from the docstring parent
             with suppress(AttributeError, KeyError, ValueError):
@@ -418,7 +418,7 @@ def _read_yields_section(
         groups = match.groupdict()
         name = groups["nt_name"] or groups["name"]
         annotation = groups["nt_type"] or groups["type"]
-        text = dedent("\n".join(item[1:]))
+        text = dedent("\n".join(item[1:])).rstrip()
         if annotation is None:
             # try to retrieve the annotation from the docstring parent
             with suppress(AttributeError, IndexError, KeyError, ValueError):
@@ -466,7 +466,7 @@ def _read_receives_section(
         groups = match.groupdict()
         name = groups["nt_name"] or groups["name"]
         annotation = groups["nt_type"] or groups["type"]
-        text = dedent("\n".join(item[1:]))
+        text = dedent("\n".join(item[1:])).rstrip()
         if annotation is None:
             # try to retrieve the annotation from the docstring parent
             with suppress(AttributeError, KeyError):
@@ -503,7 +503,7 @@ def _read_raises_section(
     raises = []
     for item in items:
         annotation = parse_docstring_annotation(item[0], docstring)
-        text = dedent("\n".join(item[1:]))
+        text = dedent("\n".join(item[1:])).rstrip()
         raises.append(DocstringRaise(annotation=annotation, description=text))
     return DocstringSectionRaises(raises), new_offset
 
@@ -526,7 +526,7 @@ def _read_warns_section(
     warns = []
     for item in items:
         annotation = parse_docstring_annotation(item[0], docstring)
-        text = dedent("\n".join(item[1:]))
+        text = dedent("\n".join(item[1:])).rstrip()
         warns.append(DocstringWarn(annotation=annotation, description=text))
     return DocstringSectionWarns(warns), new_offset
 
@@ -563,7 +563,7 @@ def _read_attributes_section(
                 annotation = docstring.parent[name].annotation  # type: ignore[index]
         else:
             annotation = parse_docstring_annotation(annotation, docstring, log_level=LogLevel.debug)
-        text = dedent("\n".join(item[1:]))
+        text = dedent("\n".join(item[1:])).rstrip()
         attributes.append(DocstringAttribute(name=name, annotation=annotation, description=text))
     return DocstringSectionAttributes(attributes), new_offset
 
